@@ -57,7 +57,15 @@ class PredicateLocations(JMCFunction):
                         }
                     )
 
-        self.datapack.add_json("predicate", self.args["name"], predicates)
+        self.datapack.add_json(
+            (
+                "predicate"
+                if self.datapack.version >= PackVersionFeature.LEGACY_FOLDER_RENAME
+                else "predicates"
+            ),
+            self.args["name"],
+            predicates,
+        )
         return ""
 
 
